@@ -14,6 +14,7 @@
 //!   //@loop <fn> <ordinal> | <spec>           invariant/decreases inserted before the n-th loop's body    (E6)
 //!   //@replace <fn> | <from> | <to>           declared textual rewrite inside one body (must apply >= 1x) (E5/E7)
 //!   //@replace? <fn> | <from> | <to>          same, but allowed not to apply
+//!   //@replacew <fn> ::: <from> ::: <to>      same as //@replace, compared with all whitespace removed (multi-line source text)
 //!   //@sig <file> | <sel> | <fn> | <expected real signature>      (whitespace-insensitive)                (E2)
 //!   //@sig? ...                               same, but only the existence of the function is required (functions whose body is
 //!                                             not pasted: their contract is assumed here and checked on the real body by Kani)
@@ -23,6 +24,8 @@
 //!               early exit is replaced by a block binding its parameters around the helper's own body       (E10)
 //!   (automatic) `debug_assert!(e)` / `debug_assert_eq!(a, b)` / `debug_assert_ne!(a, b)` inside a pasted body become
 //!               `verif_debug_assert(cond)`, a function that requires `cond` (obligation `:debug-assert`, C17)    (E11)
+//!   (automatic) `opt.and_then(|p| body)` / `opt.map(|p| body)` whose closure body contains a logged (ghost) call and no early
+//!               exit becomes `(match opt { Some(p) => body | Some(body), None => None })`                     (E12)
 //!   //@paste <file> | <sel> | <fn> [| as <key>]   replaced by the verbatim body of that function; <key> (default: <fn>) is the
 //!                                             name under which //@closure, //@loop, //@replace address this paste
 //! <sel>: "<Trait> for <Type>", "inherent <Type>", "trait <Trait>" (default method) or "free" (free function).
@@ -81,6 +84,22 @@ impl<'ast> Visit<'ast> for HasEarlyExit {
     fn visit_expr_return(&mut self, _: &'ast syn::ExprReturn) { self.0 = true; }
     fn visit_expr_try(&mut self, _: &'ast syn::ExprTry) { self.0 = true; }
     fn visit_expr_closure(&mut self, _: &'ast syn::ExprClosure) {} // a `return` inside a closure returns from the closure
+}
+
+/// does an expression contain a call that rule E3 threads the ghost log through?
+struct HasGhostCall<'g> { ghost: &'g [String], found: bool }
+impl<'g, 'ast> Visit<'ast> for HasGhostCall<'g> {
+    fn visit_expr_method_call(&mut self, m: &'ast syn::ExprMethodCall) {
+        if self.ghost.iter().any(|g| m.method == g) { self.found = true; }
+        syn::visit::visit_expr_method_call(self, m);
+    }
+    fn visit_expr_call(&mut self, c: &'ast syn::ExprCall) {
+        if let syn::Expr::Path(p) = &*c.func {
+            let last = p.path.segments.last().map(|s| s.ident.to_string()).unwrap_or_default();
+            if self.ghost.iter().any(|g| *g == last) { self.found = true; }
+        }
+        syn::visit::visit_expr_call(self, c);
+    }
 }
 
 fn apply_edits(src: &str, lo: usize, hi: usize, mut ins: Vec<Edit>) -> (String, Vec<Edit>) {
@@ -144,6 +163,34 @@ impl<'a> Edits<'a> {
 
 impl<'a, 'ast> Visit<'ast> for Edits<'a> {
     fn visit_expr_method_call(&mut self, m: &'ast syn::ExprMethodCall) {
+        // E12: `opt.and_then(|p| body)` / `opt.map(|p| body)` whose closure body performs logged operations (a Verus closure cannot
+        // capture the `&mut` ghost log) and has no early exit is spelled out as the `match` that `Option::and_then` / `Option::map`
+        // are defined as: `(match opt { Some(p) => body, None => None })` / `(match opt { Some(p) => Some(body), None => None })`.
+        // (Should the receiver not be an Option, the rewritten text does not type-check and the unit is undecided.)
+        if (m.method == "and_then" || m.method == "map") && m.args.len() == 1 {
+            if let syn::Expr::Closure(c) = &m.args[0] {
+                if c.inputs.len() == 1 {
+                    let mut g = HasGhostCall { ghost: self.ghost, found: false };
+                    g.visit_expr(&c.body);
+                    let mut ee = HasEarlyExit(false);
+                    ee.visit_expr(&c.body);
+                    if g.found && !ee.0 {
+                        let pat = match &c.inputs[0] { syn::Pat::Type(pt) => self.src[pt.pat.span().byte_range()].to_string(), p => self.src[p.span().byte_range()].to_string() };
+                        let whole = m.span().byte_range();
+                        let recv = m.receiver.span().byte_range();
+                        let body = c.body.span().byte_range();
+                        let is_map = m.method == "map";
+                        self.closure_no += 1;
+                        self.ins.push(Edit { start: whole.start, end: whole.start, text: "(match ".to_string(), rule: "E12" });
+                        self.ins.push(Edit { start: recv.end, end: body.start, text: format!(" {{ Some({}) => {}", pat, if is_map { "Some(" } else { "" }), rule: "E12" });
+                        self.ins.push(Edit { start: body.end, end: whole.end, text: format!("{}, None => None }})", if is_map { ")" } else { "" }), rule: "E12" });
+                        self.visit_expr(&m.receiver);
+                        self.visit_expr(&c.body);
+                        return;
+                    }
+                }
+            }
+        }
         let is_self = matches!(&*m.receiver, syn::Expr::Path(p) if p.path.is_ident("self"));
         if is_self && self.helpers.contains_key(&m.method.to_string()) {
             if let Some(t) = self.inline_call(&m.method.to_string(), m.args.iter().collect(), false) {
@@ -387,6 +434,7 @@ fn main() {
     let mut closure_specs: HashMap<String, HashMap<usize, String>> = HashMap::new();
     let mut loop_specs: HashMap<String, HashMap<usize, String>> = HashMap::new();
     let mut replaces: HashMap<String, Vec<(String, String, bool)>> = HashMap::new();
+    let mut replacews: HashMap<String, Vec<(String, String)>> = HashMap::new();
     for l in tpl.lines() {
         let t = l.trim();
         if let Some(r) = t.strip_prefix("//@ghostcalls ") {
@@ -400,6 +448,14 @@ fn main() {
                 let n: usize = h.next().and_then(|x| x.parse().ok()).unwrap_or_else(|| undecided(format!("bad directive: {}", t)));
                 map.entry(f).or_default().insert(n, spec.trim().to_string());
             }
+        }
+        // whitespace-insensitive variant for multi-line source text that may itself contain `|`: fields separated by ` ::: `
+        if let Some(r) = t.strip_prefix("//@replacew ") {
+            let parts: Vec<&str> = r.split(" ::: ").map(|x| x.trim()).collect();
+            if parts.len() != 3 {
+                undecided(format!("bad directive: {}", t));
+            }
+            replacews.entry(parts[0].to_string()).or_default().push((parts[1].to_string(), parts[2].to_string()));
         }
         for (pre, optional) in [("//@replace? ", true), ("//@replace ", false)] {
             if let Some(r) = t.strip_prefix(pre) {
@@ -575,6 +631,28 @@ fn main() {
                 }
                 if found == 0 && !optional {
                     undecided(format!("RULE-NO-LONGER-APPLIES replace `{}` in {}", from, name));
+                }
+            }
+        }
+        if let Some(rs) = replacews.get(key) {
+            for (from, to) in rs {
+                // compare with all whitespace removed; map the match back to byte offsets of the repo text
+                let hay = &src[lo..hi];
+                let mut idx: Vec<usize> = vec![];
+                let mut squeezed = String::new();
+                for (i, ch) in hay.char_indices() { if !ch.is_whitespace() { idx.push(i); squeezed.push(ch); } }
+                let want: String = from.chars().filter(|c| !c.is_whitespace()).collect();
+                // (byte offsets in `squeezed` -> index into idx: count chars)
+                match squeezed.find(want.as_str()) {
+                    Some(b) => {
+                        let c0 = squeezed[..b].chars().count();
+                        let c1 = c0 + want.chars().count();
+                        let s0 = lo + idx[c0];
+                        let last = idx[c1 - 1];
+                        let s1 = lo + last + hay[last..].chars().next().map(|c| c.len_utf8()).unwrap_or(1);
+                        ins.push(Edit { start: s0, end: s1, text: to.clone(), rule: "replace" });
+                    }
+                    None => undecided(format!("RULE-NO-LONGER-APPLIES replacew `{}` in {}", from, name)),
                 }
             }
         }
